@@ -156,6 +156,14 @@ func runC08(r *oblig.Report) {
 		}
 	}
 	e5path.Propagation(c.P, r, "R5.6", tfs, nil)
+	r.Rule("R8.10", "instance-table", "no recursive tree walker hands the same unchanged node to the recursion twice on one path (the work would double per nesting level)", 3)
+	var rfs []*ssa.Function
+	for _, f := range c.Reach(c.Entries(c08Entries...)) {
+		if pkg := load.FuncPkg(f); pkg != nil && load.IsRepoPkg(pkg) && load.ShortPkg(pkg) != "gen" {
+			rfs = append(rfs, f)
+		}
+	}
+	e5path.RecursionFanOut(c.P, r, "R8.10", rfs)
 }
 
 func upperFirstName(s string) string {
